@@ -181,7 +181,31 @@ func cfRender(c *cfCase) []byte {
 		// one more byte: the first byte of the token that was cut off
 		buf.WriteByte(0x01)
 	}
-	return buf.Bytes()
+	data := buf.Bytes()
+	switch c.Fault.Kind {
+	case "cutb", "byte", "insb":
+		// byte-level faults: position floor(n * k / j) of the rendered file
+		pos := 0
+		if c.Fault.J > 0 {
+			pos = len(data) * c.Fault.K / c.Fault.J
+		}
+		if pos > len(data) {
+			pos = len(data)
+		}
+		v, _ := strconv.Atoi(c.Fault.S)
+		switch c.Fault.Kind {
+		case "cutb":
+			data = data[:pos]
+		case "byte":
+			if pos < len(data) {
+				data = append([]byte{}, data...)
+				data[pos] = byte(v)
+			}
+		case "insb":
+			data = append(append(append([]byte{}, data[:pos]...), byte(v)), data[pos:]...)
+		}
+	}
+	return data
 }
 
 // expected triangles of a valid file, as vertex coordinates (polygons: any triangulation)
